@@ -115,7 +115,31 @@ def check(ctx):
     _positive_control(rep, model)
     _call_ordering(ctx, rep)
     _destructive_kernels(ctx, rep, model)
+    _attribute_definedness(rep, model, ops)
     return rep
+
+
+def _attribute_definedness(rep, model, ops):
+    """R9 (E12): every self.X read in a _call resolves in the class."""
+    from ..selfattr import undefined_reads
+    n = 0
+    for ci, fn in ops:
+        r = undefined_reads(model, ci, fn)
+        if r is None:
+            continue
+        n += 1
+        cons = '%s._call' % ci.qual
+        if r:
+            ln, attr = r[0]
+            rep.violation(
+                'R9', cons,
+                '`self.%s` is read, but no class in the MRO of %s defines '
+                'it (in a closure class `self` is the operator, not the '
+                'enclosing object): the call raises AttributeError'
+                % (attr, ci.name), ci.rel, ln)
+        else:
+            rep.holds('R9', cons, 'every self attribute read is defined')
+    rep.floor('R9', '_call definitions with resolvable MRO', n, 90)
 
 
 def _destructive_kernels(ctx, rep, model):
